@@ -23,6 +23,7 @@ Fixpoint outcomes (s : st) (os : list op) : list outcome :=
   | [] => []
   | Open p m d :: r => snd (do_open s p m d) :: outcomes (fst (do_open s p m d)) r
   | Close :: r => OK :: outcomes (do_close s) r
+  | Vanish i :: r => OK :: outcomes (do_op s (Vanish i)) r
   end.
 
 Inductive fin :=
@@ -97,11 +98,21 @@ Definition corr (k : case) : bool :=
       end
   end.
 
+(* destinations registered since the last close(): what was opened before a close() is discarded for good *)
+Fixpoint since_close (ops : list op) (acc : list path) : list path :=
+  match ops with
+  | [] => acc
+  | Close :: r => since_close r []
+  | Open p m _ :: r => since_close r (if registers m then p :: acc else acc)
+  | Vanish _ :: r => since_close r acc
+  end.
+
 Definition prop (k : case) : bool :=
   match k with
   | CHist fs0 ops outs before dests f after nleft =>
       let D := map d_path dests in
       fs_eqb fs0 before                       (* destinations untouched until finalisation *)
+      && forallb (fun d => mem d (since_close ops [])) D      (* nothing discarded by close() is still queued *)
       && match f with
          | FWrite => (negb (noclashb D) || (final_okb fs0 dests after && preservedb fs0 D after)) && N.eqb nleft 0
          | FClose => fs_eqb fs0 after && N.eqb nleft 0
